@@ -15,7 +15,8 @@ inductive GateKind | open | write | read | failWrite | failOpen
 
 /-- One event delivered to the torrent's event loop by the harness. -/
 inductive Op
-  | start | stop | verify | nop | persist
+  | start | stop | verify | nop | persist | waitstop
+  | trk (hang : List Bool)             -- which stub trackers do not answer the `stopped` event from now on
   | gate (kind : GateKind) (on : Bool)
   | mutate (file : Option Nat) (how : Mut)
   | peer (k : Nat) (ip : String) (fast ext badHash : Bool)
@@ -57,6 +58,10 @@ def handle (s : St) (parked : Parked) (known : Nat → Bool) : Op → M × Strin
     -- Torrent.Verify() deletes the persisted bitfield before it hands the command to the loop
     (onSt (handleVerifyCommand ({ s with persisted := none }, [])) fun s => { s with gateOpen := false, gateRead := false }, "", parked)
   | .nop => ((s, []), "", parked)
+  | .trk _ => ((s, []), "", parked)
+  | .waitstop =>
+    -- TrackerStopTimeout has passed: the stop announcer gives up and reports
+    (({ s with stopHang := false }, []), "", parked)
   | .persist =>
     -- Session.updateStats: the periodic writer stores the in-memory bitfield, if there is one
     (({ s with persisted := match s.bf with | some b => some b | none => s.persisted }, []), "", parked)
@@ -115,6 +120,26 @@ def handle (s : St) (parked : Parked) (known : Nat → Bool) : Op → M × Strin
   | .snub k =>
     if (s.findPeer k).isNone then ((s, []), closedVerdict (known k), parked)
     else (handlePeerSnubbed (s, []) k, "", parked)
+
+/-- Stub trackers of the harness world (outside the loop's own state): how many there are and which of
+them currently do not answer the `stopped` event. The periodical announcers exist exactly while the
+acceptor does (`startAcceptor` / `startAnnouncers` and `stopAcceptor` / `stopPeriodicalAnnouncers` are
+always called together), so `announcing = acceptor ∧ ntrk > 0`. -/
+structure TrkSt where
+  ntrk : Nat := 0
+  hang : List Bool := []
+  deriving Repr, Inhabited
+
+def TrkSt.anyHang (t : TrkSt) : Bool := (List.range t.ntrk).any fun i => t.hang.getD i false
+
+/-- Announces the stub trackers receive because of the transition `prev → new` (identity fields are
+rendered by the driver): `started` from every tracker when the announcers start, `stopped` to every
+tracker when they are stopped (all of them have answered `started` in the harness worlds). -/
+def annEvents (t : TrkSt) (prev new : St) : List (Nat × String) :=
+  if t.ntrk = 0 then []
+  else if !prev.acceptor && new.acceptor then (List.range t.ntrk).map fun i => (i, "started")
+  else if prev.acceptor && !new.acceptor then (List.range t.ntrk).map fun i => (i, "stopped")
+  else []
 
 /-- One op: handler, worker completions, delivery of a parked piece message. -/
 def step (s : St) (parked : Parked) (known : Nat → Bool) (op : Op) : StepOut × Parked :=
